@@ -282,11 +282,11 @@ class Spectrum(object):
         self.data = data
         if data_y is not None:
             self.data_y = data_y
+        # self._range.N is the NFFT value. By default, it is the size of the data
+        self._range = Range(self.__data.size, sampling) # can be private.
         self.sampling = sampling
         self.sides = 'default'
-        # self._range.N is the NFFT value. By default, it is the size of the data
 
-        self._range = Range(self.__data.size, sampling) # can be private.
         self.modified = True
         self.sampling = sampling
         self.scale_by_freq = scale_by_freq
@@ -516,6 +516,7 @@ class Spectrum(object):
         if sampling == self.__sampling: return
         self.__sampling = sampling
         self.__df = self.__sampling / float(self.__N)
+        self._range.sampling = self.__sampling
         self.modified = True
     sampling = property(fget=_getSampling, fset=_setSampling,
         doc="""Getter/Setter to sampling frequency. Updates the :attr:`df` automatically.""")
